@@ -933,7 +933,16 @@ def log_call(
         if include_args is not None:
             callargs = {k: callargs[k] for k in include_args}
 
-        with start_action(action_type=action_type, **callargs) as ctx:
+        # The arguments are passed as a dictionary, not as keyword arguments,
+        # since their names might collide with start_action()'s own
+        # parameters (e.g. "logger" or "action_type"):
+        parent = current_action()
+        if parent is None:
+            ctx = Action(None, str(uuid4()), TaskLevel(level=[]), action_type)
+        else:
+            ctx = parent.child(None, action_type)
+        ctx._start(callargs)
+        with ctx:
             result = wrapped_function(*args, **kwargs)
             if include_result:
                 ctx.add_success_fields(result=result)
